@@ -24,7 +24,17 @@ RULE = (
     "modulo 31 for every residue, every 29/30 and 0/1 residue mixture, prefixes with extreme running CRC-8 remainder, extreme "
     "row / column weights - inputs that drive the PARTIAL quantities of the computation to their extremes), a directed set built by construction to hit every checksum value 0..30 (eight random octets + one octet "
     "solved for the target; all-0xFF / carry-heavy octets) and Hypothesis-drawn 72-bit messages.  containers: the same messages (all 2^11 x both parities for (32,11); basis + boundary + Hypothesis-drawn for the other two) "
-    "held in a little-endian bitarray / frozenbitarray of either endianness.  linearity: Hypothesis "
+    "held in a little-endian bitarray / frozenbitarray of either endianness.  after_sibling_calls: a case is (code, message[, parity], "
+    "a list of sibling calls, judged-first flag); a sibling call is one other entry point of the anchored modules - CRC8.calculate / check / "
+    "CALC.verify_checksum / CALC.calculate_checksum with the right, a wrong, an out-of-range checksum, a wrong type, the CRC register "
+    "workflow, fresh calculators, the CRC-9/16/32 calculators, ShortLinkControl over message + CRC, FiveBitChecksum.calculate / verify, "
+    "generate / check / check_and_correct / correct_numpy_array of all five Hamming classes, encode (every input form, both parities) and "
+    "the extractors of all three codes, their table helpers, each also with refused lengths / types - applied to a value RELATED to the "
+    "message (the message, message + checksum, the codeword, prefixes, the same bits fitted to 11 / 28 / 72 bits, the rows of its matrix, "
+    "words with 1-2 bit errors).  Every call kind (x Hamming class / x code) once alone per code and seeded message, plus seeded sequences of "
+    "2-6 calls with repeats; the message is judged with every clause of the code's oracle before and after the calls, or only after.  "
+    "The same sibling calls are what the framework's preludes run between two judgements of every 8th case of the other sub-checks "
+    "(prelude_for).  linearity: Hypothesis "
     "pairs (a,b) per code.  A case is (code, message[, parity]); distinct by hash.  Non-trivial: non-zero message; for "
     "(128,72) additionally the 5-bit checksum is not a bit palindrome (a palindromic checksum cannot see the order of the "
     "checksum bits); for linearity a, b, a^b all non-zero."
@@ -252,9 +262,486 @@ def oracle_code(case):
             raise Fail("repeated_call_equal_after_scribbling_on_returned_buffer_and_argument", _diff(r2, saved), "no difference", klass=name)
 
 
+# ---------------------------------------------------------------------------------------------- sibling calls (round 7)
+#
+# Every entry point of the anchored modules that shares something with the judged ones - the CRC-8 calculator object
+# (CRC8.CALC) and its register, the lookup table the CRC registers share, the 5-bit checksum helper, the Hamming classes
+# (two of them have k = 11), the three encoders and their extractors - applied to values RELATED to the case: the message
+# itself, message + checksum, the codeword, prefixes, the same bits fitted to the other codes' lengths, the rows of the
+# case's matrix, words with 1-2 bit errors; and the rightly refused variants of the same calls (mismatching checksum,
+# checksum out of range, wrong length, wrong type).  A sibling call is stimulus only: whatever it returns or raises is
+# ignored.  Used (a) by sub-check after_sibling_calls: judge, run calls, judge again - or run calls first, then judge - and
+# (b) by the framework's preludes (prelude_for).
+
+_HAMMING_CLASSES = {
+    "hamming_7_4_3": ("hamming_7_4_3", "Hamming743"),
+    "hamming_13_9_3": ("hamming_13_9_3", "Hamming1393"),
+    "hamming_15_11_3": ("hamming_15_11_3", "Hamming15113"),
+    "hamming_16_11_4": ("hamming_16_11_4", "Hamming16114"),
+    "hamming_17_12_3": ("hamming_17_12_3", "Hamming17123"),
+}
+_HAMMING_NAMES = sorted(_HAMMING_CLASSES)
+
+
+def _hamming_lib(name):
+    import importlib
+
+    mod, cls = _HAMMING_CLASSES[name]
+    return getattr(importlib.import_module("okdmr.dmrlib.etsi.fec." + mod), cls)
+
+
+def _related(a):
+    """(message bits, message + checksum bits, reference codeword, reference matrix rows) of the case a sibling call refers to"""
+    code = a["code"]
+    ml = msg_bits(code, a["msg"]).tolist()
+    even = bool(a.get("even", True))
+    if code == "128_72":
+        ref, cs = bptc_ref.vbptc128_encode(ml), gf2.int_to_bits(bptc_ref.cs5(ml), 5)
+        mat = bptc_ref.vbptc128_to_matrix(ref)
+    elif code == "68_28":
+        ref, cs = bptc_ref.vbptc68_encode(ml), gf2.int_to_bits(bptc_ref.crc8(ml), 8)[::-1]
+        mat = bptc_ref.vbptc68_to_matrix(ref)
+    else:
+        ref, cs = bptc_ref.vbptc32_encode(ml, even), []
+        mat = bptc_ref.vbptc32_to_matrix(ref)
+    return ml, ml + cs, ref, mat
+
+
+def _fit(bits, k: int, how: int):
+    """the same bits fitted to length k: leading / trailing part when longer, zero-extended on the left / right when shorter"""
+    bits = list(bits)
+    if len(bits) >= k:
+        return bits[:k] if how % 2 == 0 else bits[len(bits) - k :]
+    pad = [0] * (k - len(bits))
+    return pad + bits if how % 2 == 0 else bits + pad
+
+
+def _flip(bits, positions):
+    out = list(bits)
+    for p in positions:
+        if out:
+            out[p % len(out)] ^= 1
+    return out
+
+
+_BITSEL = ("message", "message+checksum", "codeword", "message[:-1]", "message[1:]", "as 28 bits", "empty", "message+00000000", "as 72 bits", "as 11 bits")
+
+
+def _bitsel(a):
+    ml, mcs, ref, _mat = _related(a)
+    v = int(a.get("v", 0)) % len(_BITSEL)
+    return [ml, mcs, ref, ml[:-1], ml[1:], _fit(ml, 28, a.get("w", 0)), [], ml + [0] * 8, _fit(ml, 72, a.get("w", 0)), _fit(ml, 11, a.get("w", 0))][v]
+
+
+def _wrong_type(bits: bitarray, w: int):
+    return [bits.to01(), bits.tobytes(), bits.tolist() + [2], None, 5, [bits]][w % 6]
+
+
+def _sib_crc8(a):
+    from okdmr.dmrlib.etsi.crc.crc import BitCrcCalculator, BitCrcRegister, Crc7, Crc8, TableBasedBitCrcRegister
+    from okdmr.dmrlib.etsi.crc.crc8 import CRC8
+
+    how, w = a["how"], int(a.get("w", 0))
+    bl = _bitsel(a)
+    bits = _ba(bl)
+    right = bptc_ref.crc8(bl)
+    wrong = [right ^ 1, right ^ 0x80, right ^ 0xFF, (right + 1) & 0xFF][w % 4]
+    if how == "calculate":
+        CRC8.calculate(bits)
+    elif how == "check_right":
+        CRC8.check(bits, right)
+    elif how == "check_wrong":
+        CRC8.check(bits, wrong)
+    elif how == "check_out_of_range":
+        CRC8.check(bits, [256, -1, 1 << 16, 0x1FF][w % 4])
+    elif how == "verify_right":
+        CRC8.CALC.verify_checksum(bits, right)
+    elif how == "verify_wrong":
+        CRC8.CALC.verify_checksum(bits, wrong)
+    elif how == "verify_odd_expectation":
+        CRC8.CALC.verify_checksum(bits, [None, "00", 256, -1, 1.5, bitarray("1")][w % 6])
+    elif how == "calculate_checksum":
+        CRC8.CALC.calculate_checksum(bits)
+    elif how == "calculate_wrong_type":
+        CRC8.calculate(_wrong_type(bits, w))
+    elif how == "verify_wrong_type":
+        CRC8.CALC.verify_checksum(_wrong_type(bits, w), right)
+    elif how == "check_wrong_type":
+        CRC8.check(_wrong_type(bits, w), right)
+    elif how == "calculate_little_endian":
+        CRC8.calculate(bitarray(bl, endian="little"))
+    elif how == "register_workflow":
+        reg = (TableBasedBitCrcRegister if w & 1 else BitCrcRegister)(Crc8.ETSI_DMR)
+        reg.init()
+        cut = (len(bits) * (1 + (w >> 3) % 3)) // 4
+        reg.update(bits[:cut])
+        reg.update(bits[cut:])
+        if w & 2:
+            reg.digest()
+        if w & 4:
+            reg.reverse()
+    elif how == "fresh_calculator":
+        calc = BitCrcCalculator(Crc8.ETSI_DMR if w & 2 == 0 else Crc7.ETSI_DMR, table_based=bool(w & 1))
+        calc.verify_checksum(bits, wrong)
+        if w & 4:
+            calc.calculate_checksum(bits)
+    elif how == "lookup_table":
+        from okdmr.dmrlib.etsi.crc.crc import bits_create_lookup_table
+
+        bits_create_lookup_table(8, 0x07)
+        bits_create_lookup_table([7, 9, 16, 8][w % 4], [0x27, 0x59, 0x1021, 0x1D][w % 4])
+
+
+def _sib_other_crc(a):
+    """the other shared calculators (CRC-9 / CRC-16 / CRC-32 / their class-level helpers) on the same bits"""
+    import importlib
+
+    from okdmr.dmrlib.etsi.layer2.elements.crc_masks import CrcMasks
+
+    how, w = a["how"], int(a.get("w", 0))
+    bl = _bitsel(a)
+    bits = _ba(bl)
+    name = ("crc9", "crc16", "crc32")[w % 3]
+    cls = getattr(importlib.import_module("okdmr.dmrlib.etsi.crc." + name), name.upper())
+    masks = sorted(CrcMasks, key=lambda m: m.name)
+    mask = masks[(w // 3) % len(masks)]
+    if how == "calc_verify_wrong":
+        got = cls.CALC.calculate_checksum(bits)
+        cls.CALC.verify_checksum(bits, (gf2.bits_to_int(_ba(got).tolist()) ^ 1))
+    elif how == "calc_calculate":
+        cls.CALC.calculate_checksum(bits)
+    elif how == "class_calculate":
+        if name == "crc9":
+            cls.calculate(bits, mask)
+        elif name == "crc16":
+            cls.calculate(bits.tobytes(), mask)
+        else:
+            cls.calculate(bits.tobytes())
+    elif how == "class_check_wrong":
+        if name == "crc9":
+            cls.check(bits.tobytes(), w % 128, (w * 37) % 512, mask)
+        elif name == "crc16":
+            cls.check(bits.tobytes(), (w * 977) % 65536, mask)
+        else:
+            cls.check(bits.tobytes(), (w * 7919) % (1 << 32))
+    elif how == "class_check_out_of_range":
+        if name == "crc9":
+            cls.check(bits.tobytes(), 1, 512, mask)
+        elif name == "crc16":
+            cls.check(bits.tobytes(), 1 << 16, mask)
+        else:
+            cls.check(bits.tobytes(), 1 << 32)
+
+
+def _sib_short_lc(a):
+    """the consumer of CRC-8 next to the (68,28) code: ShortLinkControl over message + CRC-8 (right, wrong, zero)"""
+    from okdmr.dmrlib.etsi.layer2.pdu.short_link_control import ShortLinkControl
+
+    how, w = a["how"], int(a.get("w", 0))
+    ml, _mcs, _ref, _mat = _related(a)
+    m28 = _fit(ml, 28, w)
+    if w & 2:  # make the opcode one the PDU class implements (0 = Null message, 2 = activity update)
+        m28[:4] = [0, 0, (w >> 2) & 1, 0]
+    right = gf2.int_to_bits(bptc_ref.crc8(m28), 8)[::-1]
+    tail = {"right": right, "wrong": _flip(right, [w]), "zero": [0] * 8, "short": right[:4]}[how]
+    slc = ShortLinkControl.from_bits(_ba(m28 + tail))
+    repr(slc)
+    slc.as_bits()
+
+
+def _sib_cs5(a):
+    from okdmr.dmrlib.etsi.fec.five_bit_checksum import FiveBitChecksum
+
+    how, w = a["how"], int(a.get("w", 0))
+    ml, _mcs, _ref, _mat = _related(a)
+    m72 = _fit(ml, 72, w)
+    data = _ba(m72).tobytes()
+    right = bptc_ref.cs5(m72)
+    if how == "calculate":
+        FiveBitChecksum.calculate(data)
+    elif how == "calculate_short":
+        FiveBitChecksum.calculate(data[1 + w % 8 :])
+    elif how == "calculate_long":
+        FiveBitChecksum.calculate(data + bytes([w & 0xFF]))
+    elif how == "calculate_other_container":
+        FiveBitChecksum.calculate([bytearray(data), memoryview(data), list(data), tuple(data)][w % 4])
+    elif how == "calculate_wrong_type":
+        FiveBitChecksum.calculate([_ba(m72), _ba(m72).to01(), None, [300] * 9, [-1] * 9][w % 5])
+    elif how == "verify_right":
+        FiveBitChecksum.verify(data, right)
+    elif how == "verify_wrong":
+        FiveBitChecksum.verify(data, (right + 1 + w % 29) % 31)
+    elif how == "verify_out_of_range":
+        FiveBitChecksum.verify(data, [31, -1, 32, 255][w % 4])
+
+
+def _sib_hamming(a):
+    """every Hamming class on the rows of the case's matrix: the row's leading k' bits through generate (bitarray / numpy
+    array / list), the reference codeword with 0 / 1 / 2 bit errors through check, check_and_correct, correct_numpy_array,
+    and the refused lengths"""
+    import numpy
+
+    how, w = a["how"], int(a.get("w", 0))
+    _ml, _mcs, _ref, mat = _related(a)
+    row = mat[int(a.get("v", 0)) % len(mat)]
+    hname = _HAMMING_NAMES[int(a.get("h", 0)) % len(_HAMMING_NAMES)]
+    H = _hamming_lib(hname)
+    n, k = gf2.CODES[hname][0], gf2.CODES[hname][1]
+    data = _fit(row, k, 0)
+    cw = gf2.ref_encode(hname, data)
+    if how == "generate":
+        H.generate([_ba(data), numpy.array(data), data][w % 3])
+    elif how == "generate_wrong_length":
+        H.generate(_ba(_fit(row, [k - 1, k + 1, n, 0][w % 4], 0)))
+    elif how == "generate_wrong_type":
+        H.generate([None, "".join(map(str, data)), numpy.array(data, dtype=float) * 0.5, [2] * k][w % 4])
+    elif how == "check":
+        H.check(_ba(_flip(cw, [w, w // n + w + 1][: (w // 3) % 3])))
+    elif how == "check_wrong_length":
+        H.check(_ba(_fit(cw, [n - 1, n + 1, k, 0][w % 4], 0)))
+    elif how == "check_and_correct":
+        H.check_and_correct(_ba(_flip(cw, [w, w // n + w + 1][: (w // 3) % 3])))
+    elif how == "check_and_correct_two_errors":
+        H.check_and_correct(_ba(_flip(cw, [w, w + 1 + (w // n) % (n - 1)])))
+    elif how == "correct_numpy_array":
+        H.correct_numpy_array(numpy.array(_flip(cw, [w, w // n + w + 1][: (w // 3) % 3])))
+    elif how == "correct_numpy_array_wrong_length":
+        H.correct_numpy_array(numpy.array(_fit(cw, [n - 1, n + 1][w % 2], 0)))
+
+
+def _sib_vbptc(a):
+    """the three encoders and their extractors on the same bits (fitted to the other codes' lengths), every input form, both
+    parities, words with bit errors, and the refused lengths / types"""
+    how, w = a["how"], int(a.get("w", 0))
+    ml, mcs, ref, _mat = _related(a)
+    code2 = ("128_72", "68_28", "32_11")[int(a.get("c", 0)) % 3]
+    k2, n2, _ = CODES[code2]
+    V = lib(code2)
+    kw = {"even_parity": bool(w & 1)} if code2 == "32_11" else {}
+    if code2 == a["code"]:
+        m2 = ml
+    else:
+        m2 = _fit(ml, k2, w >> 1)
+    if code2 == "128_72":
+        ref2, cs2 = bptc_ref.vbptc128_encode(m2), gf2.int_to_bits(bptc_ref.cs5(m2), 5)
+    elif code2 == "68_28":
+        ref2, cs2 = bptc_ref.vbptc68_encode(m2), gf2.int_to_bits(bptc_ref.crc8(m2), 8)[::-1]
+    else:
+        ref2, cs2 = bptc_ref.vbptc32_encode(m2, bool(w & 1)), []
+    if how == "encode_message":
+        V.encode(_ba(m2), **kw)
+    elif how == "encode_message_with_checksum":
+        V.encode(_ba(m2 + cs2), **kw)
+    elif how == "encode_message_with_wrong_checksum":
+        V.encode(_ba(m2 + _flip(cs2, [w])), **kw)
+    elif how == "encode_matrix":
+        V.encode(V.deinterleave_all_bits(_ba(ref2)), **kw)
+    elif how == "encode_codeword_as_if_matrix":
+        V.encode(_ba(ref2), **kw)
+    elif how == "encode_wrong_length":
+        V.encode(_ba(_fit(ref2, [k2 - 1, k2 + 1, n2 - 1, n2 + 1, 0, len(m2 + cs2) + 1][w % 6], 0)), **kw)
+    elif how == "encode_wrong_type":
+        V.encode([None, "".join(map(str, m2)), _ba(m2).tobytes(), m2, tuple(m2), [2] * k2][w % 6], **kw)
+    elif how == "encode_other_parity" and code2 == "32_11":
+        V.encode(_ba(m2), even_parity=[False, True, None, 0, 1, "odd"][w % 6])
+    elif how == "extract":
+        word = _ba(_flip(ref2, [w * 7, w * 13 + 5][: w % 3]))
+        fn = [V.deinterleave_data_bits, V.deinterleave_all_bits, getattr(V, "deinterleave_cs5_bits", None) or getattr(V, "deinterleave_crc8_bits", None) or V.deinterleave_data_bits][(w // 3) % 3]
+        fn(word)
+    elif how == "extract_flag":
+        if code2 == "128_72":
+            V.deinterleave_data_bits(_ba(ref2), include_cs5=bool(w & 1))
+        elif code2 == "68_28":
+            V.deinterleave_data_bits(_ba(ref2), include_crc8=bool(w & 1))
+        else:
+            V.deinterleave_data_bits(_ba(ref2))
+    elif how == "extract_wrong_length":
+        word = _ba(_fit(ref2, [n2 - 1, n2 + 1, k2, 0][w % 4], 0))
+        fn = [V.deinterleave_data_bits, V.deinterleave_all_bits, getattr(V, "deinterleave_cs5_bits", None) or getattr(V, "deinterleave_crc8_bits", None) or V.deinterleave_data_bits][(w // 4) % 3]
+        fn(word)
+    elif how == "table_helpers":
+        t = V.make_encoding_table()
+        if w % 4 == 0:
+            V.fill_encoding_table(t, _ba(m2))
+        elif w % 4 == 1:
+            V.fill_encoding_table(t, _ba(m2[:-1]))  # refused
+        elif w % 4 == 2:
+            V.fill_encoding_table(t, V.deinterleave_all_bits(_ba(ref2)))
+            t.fill(1)
+        else:
+            V.set_parity(t[: 1 + w % 3, 0])  # refused for most lengths
+    elif how == "set_parity":
+        import numpy
+
+        rows = {"128_72": 7, "68_28": 3, "32_11": 2}[code2]
+        col = numpy.array(_fit(ml, rows + (w % 3) - 1, 0))
+        V.set_parity(col, **kw)
+
+
+_SIB_FAMILIES = {
+    "crc8": (_sib_crc8, ["calculate", "check_right", "check_wrong", "check_out_of_range", "verify_right", "verify_wrong", "verify_odd_expectation", "calculate_checksum",
+                         "calculate_wrong_type", "verify_wrong_type", "check_wrong_type", "calculate_little_endian", "register_workflow", "fresh_calculator", "lookup_table"]),
+    "other_crc": (_sib_other_crc, ["calc_verify_wrong", "calc_calculate", "class_calculate", "class_check_wrong", "class_check_out_of_range"]),
+    "short_lc": (_sib_short_lc, ["right", "wrong", "zero", "short"]),
+    "cs5": (_sib_cs5, ["calculate", "calculate_short", "calculate_long", "calculate_other_container", "calculate_wrong_type", "verify_right", "verify_wrong", "verify_out_of_range"]),
+    "hamming": (_sib_hamming, ["generate", "generate_wrong_length", "generate_wrong_type", "check", "check_wrong_length", "check_and_correct", "check_and_correct_two_errors",
+                               "correct_numpy_array", "correct_numpy_array_wrong_length"]),
+    "vbptc": (_sib_vbptc, ["encode_message", "encode_message_with_checksum", "encode_message_with_wrong_checksum", "encode_matrix", "encode_codeword_as_if_matrix", "encode_wrong_length",
+                           "encode_wrong_type", "encode_other_parity", "extract", "extract_flag", "extract_wrong_length", "table_helpers", "set_parity"]),
+}
+
+
+def _op_sibling(a):
+    """PRELUDE_OPS entry: a = {fam, how, code, msg[, even, v, w, h, c]} - one sibling call on a value related to (code, msg)"""
+    fn, hows = _SIB_FAMILIES[a["fam"]]
+    if a["how"] in hows:
+        fn(a)
+
+
+PRELUDE_OPS = {"sibling": _op_sibling}
+
+
+def _run_siblings(calls):
+    """stimulus only: results and exceptions of sibling calls are ignored (like the framework's preludes)"""
+    import contextlib
+    import os
+    import warnings
+
+    with open(os.devnull, "w") as sink, contextlib.redirect_stderr(sink), contextlib.redirect_stdout(sink), warnings.catch_warnings():
+        warnings.simplefilter("ignore")
+        for c in calls:
+            try:
+                _op_sibling(c["a"])
+            except (KeyboardInterrupt, SystemExit, MemoryError):
+                raise
+            except BaseException:
+                pass
+
+
+def _core(case):
+    c = {"code": case["code"], "msg": case["msg"]}
+    if "even" in case:
+        c["even"] = case["even"]
+    return c
+
+
+def _sibling_call(core, fam, how, rng):
+    """one sibling call on values related to `core`; the free selectors (which bits, which row, which Hamming class, which
+    other code, which wrong value) are drawn from rng"""
+    a = dict(core, fam=fam, how=how, w=rng.randrange(64))
+    if fam in ("crc8", "other_crc"):
+        a["v"] = rng.choice([0, 0, 0, 1, 2, 3, 4, 5, 6, 7, 8, 9])
+    if fam == "hamming":
+        a["v"] = rng.randrange(8)
+        a["h"] = rng.randrange(len(_HAMMING_NAMES))
+    if fam == "vbptc":
+        a["c"] = rng.randrange(3)
+    return {"x": "sibling", "a": a}
+
+
+def _all_sibling_kinds(code):
+    """(fam, how[, fixed selectors]) of every sibling call kind that is relevant next to `code`: the families are crossed with
+    the Hamming classes / the three codes where the call has such a selector"""
+    out = []
+    for fam, (_fn, hows) in _SIB_FAMILIES.items():
+        for how in hows:
+            if fam == "hamming":
+                out += [(fam, how, {"h": h}) for h in range(len(_HAMMING_NAMES))]
+            elif fam == "vbptc":
+                out += [(fam, how, {"c": c}) for c in range(3) if how != "encode_other_parity" or c == 2]
+            elif fam == "crc8" and how in ("calculate", "check_wrong", "verify_wrong", "verify_right", "calculate_wrong_type", "verify_wrong_type"):
+                out += [(fam, how, {"v": v}) for v in (0, 1, 2, 3, 6)]
+            else:
+                out.append((fam, how, {}))
+    return out
+
+
+def prelude_for(sub, case, rng):
+    """sibling calls on values related to the case, run by the framework between two judgements of the case"""
+    if not isinstance(case, dict) or "code" not in case:
+        return []
+    cores = []
+    if "msg" in case:
+        cores.append(_core(case))
+    else:  # linearity: both operands
+        for key in ("a", "b"):
+            if key in case:
+                c = {"code": case["code"], "msg": case[key]}
+                if "even" in case:
+                    c["even"] = case["even"]
+                cores.append(c)
+    if not cores:
+        return []
+    kinds = _all_sibling_kinds(case["code"])
+    calls = []
+    for fam, how, fixed in rng.sample(kinds, 5):
+        c = _sibling_call(rng.choice(cores), fam, how, rng)
+        c["a"].update(fixed)
+        calls.append(c)
+    return calls
+
+
+def oracle_after_siblings(case):
+    """case = {code, msg[, even], pre: [sibling calls], first: bool}.  `first`: the case is judged (every clause of
+    oracle_code), the sibling calls run, the case is judged again - the earlier judgement shows that a failure of the later
+    one is owed to what the calls left behind.  Not `first`: the calls run before the case is judged at all (a memo filled by
+    a sibling before the judged entry point ever saw the value)."""
+    core = _core(case)
+    if case.get("first", True):
+        oracle_code(core)
+    _run_siblings(case.get("pre", []))
+    try:
+        oracle_code(core)
+    except Fail as f:
+        kinds = sorted({c["a"]["fam"] + "." + c["a"]["how"] for c in case.get("pre", [])})
+        f.klass = (f.klass + "|" if f.klass else "") + "after:" + (kinds[0] if len(kinds) == 1 else "sequence")
+        raise
+
+
+def drv_after_siblings(ctx: Ctx, sub: SubCheck):
+    """(a) every sibling call kind alone (x Hamming class / x code where it has such a selector), per code, over seeded
+    messages, alternately judged-first / calls-first; (b) seeded sequences of 2-6 calls, with repeats of one refused call
+    (the same refusal 2-3 times in a row) in a third of them."""
+    _preimport()
+    reps = ctx.pick(2, 12)
+    items = []
+    for code in CODES:
+        k = CODES[code][0]
+        kinds = _all_sibling_kinds(code)
+        for j, (fam, how, fixed) in enumerate(kinds):
+            for r in range(reps):
+                rng = ctx.rng("after_siblings", code, fam, how, str(sorted(fixed.items())), r)
+                core = {"code": code, "msg": _hex(code, rng.getrandbits(k) | 1)}
+                if code == "32_11":
+                    core["even"] = bool((j + r) & 1)
+                c = _sibling_call(core, fam, how, rng)
+                c["a"].update(fixed)
+                items.append(("single:" + fam, dict(core, pre=[c], first=bool((j + r) % 3))))
+        for r in range(ctx.pick(60, 600)):
+            rng = ctx.rng("after_siblings_seq", code, r)
+            core = {"code": code, "msg": _hex(code, rng.getrandbits(k))}
+            if code == "32_11":
+                core["even"] = rng.random() < 0.5
+            pre = []
+            for fam, how, fixed in rng.sample(kinds, rng.randrange(2, 7)):
+                c = _sibling_call(core, fam, how, rng)
+                c["a"].update(fixed)
+                pre += [c] * (rng.choice([2, 3]) if rng.random() < 0.33 else 1)
+            items.append(("sequence", dict(core, pre=pre, first=rng.random() < 0.6)))
+
+    def work(chunk, t: Tally):
+        for label, c in chunk:
+            ctx.run_case(sub.name, oracle_after_siblings, c, t)
+            t.case(sub.name, key=None, nontrivial=int(c["msg"], 16) != 0, cls=f"{c['code']}:{label}:{'judged_first' if c['first'] else 'calls_first'}")
+        t.sample(sub.name, chunk[len(chunk) // 2][1])
+
+    ctx.shards(work, [items[i::64] for i in range(64)])
+    ctx.tally.extra["sibling_call_kinds"] = {code: len(_all_sibling_kinds(code)) for code in CODES}
+
+
 # ---------------------------------------------------------------------------------------------- container variants
 
-CONTAINERS = ("little", "frozen_big", "frozen_little")
+CONTAINERS =("little", "frozen_big", "frozen_little")
 
 
 def _container(bits, kind: str):
@@ -698,6 +1185,7 @@ SUBCHECKS = [
     SubCheck("cach_68_28", oracle_code, _drv_sampled("68_28", 750, 13000), "CACH short LC (68,28): basis + random messages: reference codeword, CRC-8 read-back, rows/columns, round trip, three-way re-encoding"),
     SubCheck("emb_128_72", oracle_code, _drv_sampled("128_72", 750, 13000, _directed_128), "embedded LC (128,72): basis + checksum-directed + random messages: reference codeword, 5-bit checksum read-back, rows/columns, round trip, three-way re-encoding"),
     SubCheck("containers", oracle_container, drv_containers, "representation variants: the same bit sequences in little-endian bitarrays and frozenbitarrays (both endiannesses) through every encoder input form and every extractor; (32,11) complete"),
+    SubCheck("after_sibling_calls", oracle_after_siblings, drv_after_siblings, "X, sibling calls, X again (and: sibling calls, then X): every other entry point of the anchored modules (CRC-8 calculator / register / other CRCs, 5-bit checksum, five Hamming classes, the other codes and input forms, short LC) and every rightly refused variant (mismatching checksum, out-of-range, wrong length / type) applied to values related to the message, then every clause of the code's oracle"),
     SubCheck("linearity", oracle_linearity, drv_linearity, "GF(2)-(affine) linearity of the encoders on random pairs; (128,72) residual confined to checksum-dependent positions"),
 ]
 PREDICATES = {}
